@@ -496,6 +496,13 @@ def gen_rad_default(rng, geom):
 
 def dom_rad(rng, s, kw, geom, n):
     x = np.array(s.x, dtype=float)
+    if not np.all(np.isfinite(x)):
+        # the solver's own profile has no finite positions (seen for ED_Solver(M0=1.2, gamma=1.4, Tref=56.4, Cv=1.6e12,
+        # rho0=0.75): P0 = 3.6e-5, the quadratic for rho in fnctn_ED has a negative discriminant and every profile array is
+        # NaN, with RuntimeWarnings only): there is no domain to draw points from - counted, treated as a construction
+        # that failed
+        from .core import SolverRaised
+        raise SolverRaised("%s.profile:not-finite" % type(s).__name__, ValueError("profile positions are not finite"))
     lo, hi = -x.max(), -x.min()
     t = 0.0 if rng.random() < 0.3 else logu(rng, 1e-12, 1e-9)
     sh = t * getattr(s, "sound", 0.0) * getattr(s, "M0", 0.0)
